@@ -239,6 +239,9 @@ ALL_ATTRS = set()
 BASE = {}
 
 
+KNOWN_SUITE = {}
+
+
 def evaluate(job):
     mid, modname, desc, func, lineno, new = job
     d = tempfile.mkdtemp(prefix='sa-mut-')
@@ -247,11 +250,14 @@ def evaluate(job):
         with open(os.path.join(d, 'sigtools', modname + '.py'), 'w') as f:
             f.write(new)
         env = dict(os.environ, PYTHONPATH=d, PYTHONDONTWRITEBYTECODE='1')
-        try:
+        if mid in KNOWN_SUITE:
+            tail = KNOWN_SUITE[mid]       # --recheck: the suite verdict of an earlier sweep over the same source is reused
+        else:
+          try:
             r = subprocess.run(['/venv/bin/python', '-m', 'pytest', '-q', '-p', 'no:cacheprovider', '--timeout=120',
                                 '--continue-on-collection-errors'], cwd=d, env=env, capture_output=True, text=True, timeout=600)
             tail = (r.stdout.strip().splitlines() or [''])[-1]
-        except subprocess.TimeoutExpired:
+          except subprocess.TimeoutExpired:
             tail = 'timeout'
         suite_ok = '294 passed' in tail and '10 errors' in tail and 'failed' not in tail
         import difflib
@@ -282,7 +288,13 @@ def main():
     ap.add_argument('--only-func')
     ap.add_argument('--limit', type=int)
     ap.add_argument('--list', action='store_true')
+    ap.add_argument('--recheck', help='JSONL of an earlier sweep over the same source: only its suite-surviving mutants are run, and only against the checks')
     a = ap.parse_args()
+    prev = {}
+    if a.recheck:
+        for l in open(a.recheck):
+            r = json.loads(l)
+            prev[r['id']] = r
     jobs = []
     for m in a.modules.split(','):
         src = open(os.path.join(REPO, 'sigtools', m + '.py')).read()
@@ -303,6 +315,14 @@ def main():
                 continue
             seen.add(new)
             jobs.append(('%s:%d' % (m, len(jobs)), m, desc, func, lineno, new))
+    if a.recheck:
+        keep = []
+        for j in jobs:
+            r = prev.get(j[0])
+            if r is not None and r['suite_ok'] and r['func'] == j[3] and r['desc'] == j[2] and r['line'] == j[4]:
+                KNOWN_SUITE[j[0]] = r['suite']
+                keep.append(j)
+        jobs = keep
     if a.limit:
         jobs = jobs[:a.limit]
     sys.stderr.write('%d mutants\n' % len(jobs))
